@@ -56,9 +56,9 @@ def _get_missing_parts(fmt):
     from a date format checking its directives
     """
     directive_mapping = {
-        "day": ["%d", "%-d", "%j", "%-j"],
-        "month": ["%b", "%B", "%m", "%-m"],
-        "year": ["%y", "%-y", "%Y"],
+        "day": ["%d", "%-d", "%j", "%-j", "%c", "%x"],
+        "month": ["%b", "%B", "%m", "%-m", "%j", "%-j", "%c", "%x"],
+        "year": ["%y", "%-y", "%Y", "%c", "%x"],
     }
 
     missing = [
